@@ -68,6 +68,20 @@ def programs(tier: str):
                             continue
                         labels = [(kinds[0], "root")] + [(kinds[i], places[i - 1]) for i in range(1, n)]
                         yield {"tree": _label(shape, labels), "cb": cb}
+    # a nested scope whose (suspended) disposable enter is cancelled: the scope is rolled back and
+    # must not keep its ancestors from completing
+    for place in ("spawn", "create"):
+        for rk in ("a", "s"):
+            yield {
+                "tree": {"kind": rk, "place": "root", "c": [{"kind": "a", "place": place, "c": []}]},
+                "cb": "alt",
+                "cancel_enter": 1,
+            }
+        yield {
+            "tree": {"kind": "a", "place": "root", "c": [{"kind": "a", "place": "inline", "c": [{"kind": "a", "place": place, "c": []}]}]},
+            "cb": "sync",
+            "cancel_enter": 2,
+        }
     if tier == "thorough":
         from hv.ctxkit import forest_shapes
 
@@ -96,9 +110,21 @@ class FailDisp(Disp):
         raise RuntimeError("enter fails")
 
 
+class SuspDisp(Disp):
+    def __init__(self, w, tag) -> None:
+        super().__init__(None)
+        self.w, self.tag = w, tag
+
+    async def __aenter__(self):
+        await self.w.pause(self.tag)
+        return None
+
+
 def execute(program, ch: Chooser) -> Result:  # noqa: C901, PLR0915
-    w = World(ch)
+    w = World(ch, cancel_budget=1 if program.get("cancel_enter") is not None else 0)
     w.on_quiescent = lambda: vtime.advance(0.125)
+    entering: dict = {}
+    w.cancel_filter = lambda name, t: entering.get(name, False)
     viols: list[dict] = []
     events: list = []
     nodes: dict[int, dict] = {}
@@ -138,12 +164,23 @@ def execute(program, ch: Chooser) -> Result:  # noqa: C901, PLR0915
         nodes[nid]["created"] = seq()
         events.append(("created", nid))
         disposables = [FailDisp(None)] if program.get("fail_enter") == nid else None
+        if program.get("cancel_enter") == nid:
+            disposables = [SuspDisp(w, f"n{nid}.denter")]
+            me = asyncio.current_task()
+            w.add_victim(f"n{nid}", me)
+            entering[f"n{nid}"] = True
         try:
             cm = ctx.scope(f"n{nid}", completion=make_cb(nid), disposables=disposables)
             if t["kind"] == "a":
                 await cm.__aenter__()
             else:
                 cm.__enter__()
+            entering[f"n{nid}"] = False
+        except asyncio.CancelledError:
+            entering[f"n{nid}"] = False
+            events.append(("enter-cancelled", nid))
+            nodes[nid]["enter_failed"] = True
+            return
         except RuntimeError as exc:
             if program.get("fail_enter") == nid and str(exc) == "enter fails":
                 events.append(("enter-failed", nid))
